@@ -98,6 +98,12 @@ fn value_to_json(value: &DataValue) -> String {
         DataValue::String(s) => {
             serde_json::to_string(s).expect("a string can always be serialised to JSON")
         }
+        // a timestamp has no JSON type of its own, it is written as a string (RFC 3339)
+        DataValue::Datetime(v) => format!("\"{}\"", v.to_rfc3339()),
+        DataValue::List(v) => format!(
+            "[{}]",
+            v.iter().map(value_to_json).collect::<Vec<_>>().join(", ")
+        ),
         x => x.to_string(),
     }
 }
